@@ -443,6 +443,8 @@ def normpath(ctx, p):
     q = rstrip_slashes(ctx, p)
     if tid(q) != tid(p):
         ctx.assume(z3.Implies(q != EMPTY, r == normpath_f(q)))
+        # instance of "clean paths are fixed points" for the stripped path
+        ctx.assume(z3.Implies(clean_path(q), normpath_f(q) == q))
     # the last component of the result is '.' or '..' only if the last
     # component of the argument (trailing slashes ignored) is, or p is ''
     _hr, tr = split_last_slash(ctx, r)
